@@ -87,7 +87,7 @@ def _worker_batch(args):
     mname, prop, tier, verif_seed, indices = args
     # the engine logs a warning for every I/O error it maps to a BASIC error
     import logging
-    logging.disable(logging.WARNING)
+    logging.disable(logging.CRITICAL)
     faulthandler.dump_traceback_later(RUN_WALL_S * len(indices) + 120, exit=True)
     try:
         machine = load_machine(mname)
